@@ -332,6 +332,7 @@ pub open spec fn cf_post(ast: ASTTy, state: State, ctx: Context, c: Core) -> boo
     ensures r == ternary_ok(*then, *el),                                         //# ternary_only_for_simple_arms [C01]
 //@@ END
 
+#[verifier::loop_isolation(false)]
 //@@ FN src/generate/convert/control_flow.rs | free | convert_cntrl_flow
 //@@ ITERNAME
 //@@< for case in match_cases
